@@ -300,6 +300,21 @@ def modelSkeleton : List (String × List (String × String)) :=
   [ ("Boss.S_send", [("-", "_S.send")]),
     ("Boss.W_received", [("while", "_W.received")]),
     ("Boss.D_received_dilate", [("while", "_D.received_dilate")]),
+    ("Boss.W_closed", [("-", "_W.closed")]),
+    ("Boss.W_close_with_error", [("-", "_W.closed")]),
+    ("Boss.W_got_key", [("-", "_W.got_key")]),
+    ("Boss.W_got_verifier", [("-", "_W.got_verifier")]),
+    ("Boss.D_got_key", [("-", "_D.got_key")]),
+    ("Boss.do_got_code", [("-", "_W.got_code")]),
+    ("Boss.process_version", [("-", "_D.got_wormhole_versions"), ("-", "_W.got_versions")]),
+    ("Boss.close_unwelcome", [("-", "_T.close")]),
+    ("Boss.close_error", [("-", "ServerError"), ("-", "_T.close")]),
+    ("Boss.close_scared", [("-", "WrongPasswordError"), ("-", "_T.close")]),
+    ("Boss.close_lonely", [("-", "LonelyError"), ("-", "_T.close")]),
+    ("Boss.close_happy", [("-", "_T.close")]),
+    ("Boss.send_status_peer_key", [("-", "AllegedSharedKey"), ("-", "self._evolve_wormhole_status")]),
+    ("Boss.send_status_confirmed_key", [("-", "ConfirmedKey"), ("-", "self._evolve_wormhole_status")]),
+    ("Boss.send_status_closed", [("-", "Closed"), ("-", "self._evolve_wormhole_status")]),
     ("Boss.got_message", [("if", "self._got_version"), ("else/if", "d_mo.group"), ("else/if", "self._got_dilate"),
                           ("else/else/if", "self._got_phase"), ("else/else/else", "_UnknownPhaseError")]),
     ("Send.queue", []),
@@ -462,5 +477,37 @@ example :
       .gotMessage "1" [11], .gotMessage "2" [12], .gotMessage "dilate-0" [90]]
     wRecvs r.2 = [[10], [11], [12]] ∧ dRecvs r.2 = [[90], [91]] ∧ isDilateIn (.gotMessage "dilate-1" [91]) = true ∧
       isPhaseIn (.gotMessage "1" [11]) = true := by decide
+
+
+/-- every Boss output is in `modelSkeleton` (so `skeleton_agrees` pins all 18 bodies) … -/
+theorem all_boss_outputs_pinned :
+    ∀ o ∈ [Boss.Output.D_got_key, .D_received_dilate, .S_send, .W_close_with_error, .W_closed, .W_got_key,
+           .W_got_verifier, .W_received, .close_error, .close_happy, .close_lonely, .close_scared, .close_unwelcome,
+           .do_got_code, .process_version, .send_status_closed, .send_status_confirmed_key, .send_status_peer_key],
+      ("Boss." ++ Boss.Output.name o) ∈ modelSkeleton.map (·.1) := by decide
+
+/-- … and `W_received` is the only one of them (and the only method of the data path) that calls
+    `Wormhole.received`: in particular `W_closed` / `W_close_with_error` only call `Wormhole.closed`. -/
+theorem only_W_received_delivers :
+    ∀ e ∈ modelSkeleton, e.1 ≠ "Boss.W_received" → ∀ c ∈ e.2, c.2 ≠ "_W.received" := by decide
+
+/-- **closing_delivers_nothing.**  From ANY Boss state, a closing input — `close()`, `closed` (the
+    Terminator finished: `W_closed`), `error` (`W_close_with_error`), `scared`, a server `error`, an
+    unwelcome — makes no `W.received` call, no `S.send` call, and leaves `_rx_phases` /
+    `_next_rx_phase` / `_next_tx_phase` untouched (whatever is parked in the reorder buffer stays
+    parked); and once the Boss is closing or closed, NO input ever delivers anything again. -/
+theorem closing_delivers_nothing (b : BossD) (x : BIn) :
+    (closingIn x = true →
+      wRecvs (bossIn b x).2.1 = [] ∧ sSends (bossIn b x).2.1 = [] ∧ (bossIn b x).1.rx = b.rx ∧
+        (bossIn b x).1.nextTx = b.nextTx) ∧
+    (bossLive b.st = false →
+      wRecvs (bossIn b x).2.1 = [] ∧ sSends (bossIn b x).2.1 = [] ∧ bossLive (bossIn b x).1.st = false ∧
+        (bossIn b x).1.rx = b.rx) :=
+  ⟨bossIn_closing_silent b x, bossIn_closed_silent b x⟩
+
+/-- phase 1 parked, then close() and closed: nothing is delivered, phase 1 is still parked -/
+example :
+    let r := bossRun bossInit [] [.gotCode, .happy, .gotPhase 1 [11], .close, .closed, .gotPhase 0 [10]]
+    wRecvs r.2 = [] ∧ r.1.rx.phases = [(1, [11])] ∧ r.1.rx.next = 0 := by decide
 
 end WV.Props.C03
